@@ -446,7 +446,7 @@ func ruleC20(p *Prog, r *Result) {
 				}
 				if e.Callee == "os.CreateTemp" {
 					pat := e.Args[1]
-					if !(pat.Op == "call" && pat.Name == "fmt.Sprintf" && mStr("%s.*.%s")(pat.Args[0]) && len(pat.Args[1].Args) == 2 && mCall("path/filepath.Base", arg)(pat.Args[1].Args[1])) {
+					if !mConcat(mAny(), mStr(".*."), mCall("path/filepath.Base", arg))(pat) {
 						return false, "the temp file name does not end with the argument's base name (the wrapped program would not see the extension): " + pat.String()
 					}
 				}
